@@ -529,6 +529,10 @@ Definition is_stabilization_of (n : string) (d : dest) : bool :=
 Definition stab_test (d : dest) (n : string) : bool :=
   String.prefix (stab_prefix_head ++ d_version d) n || (delete_stab_numeric && is_stabilization_of n d).
 
+(* already_archived(repo, archive_tag, branch): the tag exists and points at the tip of the branch *)
+Definition already_archived (r : repo) (tag : string) (tip : cid) : bool :=
+  match assoc_str tag (r_tags r) with Some c => Nat.eqb c tip | None => false end.
+
 Definition delete_branch (fails : nat -> bool) (use_queue : bool) (r : repo) (qs : list qentry)
            (name : string) : result :=
   match classify name with
@@ -540,7 +544,10 @@ Definition delete_branch (fails : nat -> bool) (use_queue : bool) (r : repo) (qs
   match assoc_str name (r_heads r) with
   | None => ([], NothingToDo)
   | Some tip =>
-  if negb (dkind_eqb (d_kind d) KHotfix) && mem_str (d_version d) (tag_names r)
+  let tag := archive_tag d in
+  (* a previous run pushed the archive tag and did not delete the branch: only the deletion is left *)
+  let resuming := already_archived r tag tip in
+  if negb (dkind_eqb (d_kind d) KHotfix) && negb resuming && mem_str (d_version d) (tag_names r)
   then ([], JobFailure RArchiveTag) else
   (* any(b.startswith('stabilization/%s' % version) or is_stabilization_of(repo, b, del_branch) for b in ...) *)
   if dkind_eqb (d_kind d) KDev && existsb (stab_test d) (head_names r)
@@ -552,7 +559,9 @@ Definition delete_branch (fails : nat -> bool) (use_queue : bool) (r : repo) (qs
   if delq && fails 0 then ([], JobFailure RRemoveFailed) else
   let m0 := if delq then [MDelete qname] else [] in
   let op := if delq then 1 else 0 in
-  let tag := archive_tag d in
+  if resuming then
+    if fails op then (m0, JobFailure RRemoveFailed) else ((m0 ++ [MDelete name])%list, JobSuccess)
+  else
   (* git tag <tag> fails locally when the tag exists; git push origin <tag> is the remote operation *)
   if mem_str tag (tag_names r) then (m0, JobFailure RTagFailed) else
   if fails op then (m0, JobFailure RTagFailed) else
